@@ -117,13 +117,13 @@ func operandOrderProgram(r *rand.Rand) *gen.Program {
 	n, s, b := vr("gn", tNum), vr("gs", tStr), vr("gb", tBool)
 	bin := func(op string, l, rr gen.Expr, t *gen.Type) gen.Expr { return gen.Binary{Op: op, L: l, R: rr, T: t} }
 	ss := []gen.Stmt{
+		gen.Decl{Name: "gn", T: tNum, Init: nl(float64(1 + r.Intn(3)))},
+		gen.Decl{Name: "gs", T: tStr, Init: sl([]string{"a", "m", "é"}[r.Intn(3)])},
+		gen.Decl{Name: "gb", T: tBool, Init: gen.BoolLit{V: r.Intn(2) == 0}},
 		gen.FuncDef{Name: "next", Ret: tNum, Body: []gen.Stmt{gen.Assign{Target: n, Val: bin("+", n, nl(1), tNum)}, gen.Return{Val: n}}},
 		gen.FuncDef{Name: "grow", Ret: tStr, Body: []gen.Stmt{gen.Assign{Target: s, Val: bin("+", s, sl("x"), tStr)}, gen.Return{Val: s}}},
 		gen.FuncDef{Name: "flip", Ret: tBool, Body: []gen.Stmt{gen.Assign{Target: b, Val: gen.Unary{Op: "!", X: b}}, gen.Return{Val: b}}},
 		gen.FuncDef{Name: "bump", Ret: tNum, Params: []gen.Param{{Name: "by", T: tNum}}, Body: []gen.Stmt{gen.Assign{Target: n, Val: bin("+", n, vr("by", tNum), tNum)}, gen.Return{Val: vr("by", tNum)}}},
-		gen.Decl{Name: "gn", T: tNum, Init: nl(float64(1 + r.Intn(3)))},
-		gen.Decl{Name: "gs", T: tStr, Init: sl([]string{"a", "m", "é"}[r.Intn(3)])},
-		gen.Decl{Name: "gb", T: tBool, Init: gen.BoolLit{V: r.Intn(2) == 0}},
 	}
 	next, grow, flip := call("next", tNum), call("grow", tStr), call("flip", tBool)
 	exprs := []gen.Expr{
@@ -199,7 +199,7 @@ func shadowProgram(r *rand.Rand) *gen.Program {
 		after("after-nested"),
 		gen.For{Var: "fi", VarT: tNum, Args: []gen.Expr{nl(2)}, Body: append(inner("w", r.Intn(4)), printCall(vr("fi", tNum)))},
 		after("after-for"),
-		gen.For{Var: "el", VarT: tStr, Over: arrLit(tArrS, sl("x"), sl("y")), Body: append(inner("v", r.Intn(4)), gen.If{Conds: []gen.Expr{cond(3)}, Blocks: [][]gen.Stmt{{gen.Break{}}}})},
+		gen.For{Var: "el", VarT: tStr, Over: arrLit(tArrS, sl("x"), sl("y")), Body: append(append(inner("v", r.Intn(4)), printCall(vr("el", tStr))), gen.If{Conds: []gen.Expr{cond(3)}, Blocks: [][]gen.Stmt{{gen.Break{}}}})},
 		after("after-for-array"),
 		gen.Decl{Name: "wk", T: tNum, Init: nl(0)},
 		gen.While{Cond: bin("<", vr("wk", tNum), nl(2), tBool), Body: append(inner("v", r.Intn(4)), gen.Assign{Target: vr("wk", tNum), Val: bin("+", vr("wk", tNum), nl(1), tNum)},
@@ -294,7 +294,7 @@ func loopStateProgram(r *rand.Rand) *gen.Program {
 			gen.If{Conds: []gen.Expr{bin("==", vr("k", tStr), sl("b"), tBool)}, Blocks: [][]gen.Stmt{{gen.Break{}}}},
 		}},
 		printCall(sl("after 2nd break"), num("i"), vr("k", tStr)),
-		gen.For{Var: "k", VarT: tStr, Over: gen.MapLit{T: tMapN, Keys: []string{"p", "q"}, Vals: []gen.Expr{nl(1), nl(2)}}, Body: []gen.Stmt{gen.Break{}}},
+		gen.For{Var: "k", VarT: tStr, Over: gen.MapLit{T: tMapN, Keys: []string{"p", "q"}, Vals: []gen.Expr{nl(1), nl(2)}}, Body: []gen.Stmt{printCall(sl("map loop"), vr("k", tStr)), gen.Break{}}},
 		gen.While{Cond: gen.BoolLit{V: true}, Body: []gen.Stmt{gen.Decl{Name: "i", T: tStr, Init: sl("while-local")}, printCall(vr("i", tStr)), gen.Break{}}},
 		gen.Decl{Name: "late", T: tStr, Init: sl("declared after loops left by break")},
 		gen.FuncDef{Name: "uselate", Ret: gen.TNone, Body: []gen.Stmt{printCall(vr("late", tStr), num("i"), vr("k", tStr))}},
